@@ -258,17 +258,25 @@ def judge(scn, ex, ctx):
     for (i, ok, got, exp) in ctx.results:
         if not ok:
             op = prog[i]
-            kind = "wrong-bytes"
+            size = scn["size"]
             if op[0] == "read":
-                if len(got) < len(exp) and exp.startswith(got):
-                    kind = "short-result"
-                elif len(got) > len(exp):
-                    kind = "long-result"
-            cov = getattr(ctx, "cover", "?")
-            if op[0] == "readv":
-                cov = "+".join(sorted(set(cov.split("/"))))
-            key = "%s:%s:%s%s" % (kind, op[0], cov, ":short-reads" if feat else "")
-            return (key, {"op": list(op), "step": i, "got": got, "expected": exp})
+                pairs = [(got, exp)]
+                beyond = False   # read(n) past EOF is ordinary; prefetch() never requests past the size
+            else:
+                pairs = list(zip(got, exp)) if len(got) == len(exp) else None
+                beyond = any(o + n > size for o, n in op[1])
+            if pairs is None:
+                kind = "wrong-count"
+            elif all(e.startswith(g) for g, e in pairs):
+                kind = "short-result"
+            elif all(g.startswith(e) for g, e in pairs):
+                kind = "long-result"
+            else:
+                kind = "wrong-bytes"
+            key = "%s:%s:%s" % (kind, op[0], "request-beyond-eof" if beyond else "within-file")
+            return (key, {"op": list(op), "step": i, "got": got, "expected": exp,
+                          "coverage_at_call": getattr(ctx, "cover", None),
+                          "server_reads": "full" if not feat else "short"})
     return None
 
 
